@@ -349,7 +349,7 @@ func run(args []string) error {
 	o.Raw(st.Table())
 	o.Raw(hrs.DefChunked("cases_soft", tySoft, soft))
 	o.Raw(hrs.DefChunked("cases_vfee", "(list txout * Z * Z * res error)%type", vfee))
-	o.Raw(hrs.DefChunked("cases_entry", "(Z * (Z * error) * Z * list uxin * list txout * dist * (vparams * vparams * vparams) * res verdict)%type", entries))
+	o.Raw(hrs.DefChunked("cases_entry", "(Z * (Z * error) * Z * list uxin * list txout * dist * (vparams * vparams * vparams) * error * res verdict)%type", entries))
 	o.Side["rule"] = "transactions as in C03 (unsigned, real coin.Transaction + coin.UxArray) with verification parameters: BurnFactor in {2,3,10,100,1000,65536,2^31,2^32-2,2^32-1,random; 0 and 1 as malformed}, MaxDropletPrecision 0..6 (7..255 malformed), MaxTransactionSize = encoded size -1/0/+1, 1024, 32768, 2^32-1 or random, distribution = permutation prefix of 8 pool addresses with 0..len unlocked (len+1.. malformed); output hours at inputs' hours +-1 and at the required fee +-1, amounts multiples of 10^(6-precision) or off by one lower power of ten / one droplet; a case is non-trivial when the parameters validate and it has inputs and outputs; distinct by (transaction, parameters). Call-site level (group entry): real visor.Visor whose user / unconfirmed / create-block parameter sets differ (first world: burn 10/20/15, decimals 3/5/4, size 1024/1700/1300); every signed transaction goes through InjectUserTransaction, InjectForeignTransaction and CreateBlockFromTxns at the same head, fees at ceil(hours/burn)+-1 of each set, decimals at each set's limit and one more, sizes around each limit"
 	o.Side["distribution"] = hist.Sorted()
 	o.Side["samples"] = samples
